@@ -55,7 +55,8 @@ def plan_from_states(states):
         for k in ("faces", "ebrk"):
             if not isinstance(der.get(k), list):
                 der[k] = []
-        out.append({"inst": inst, "der": {"faces": der["faces"], "brk": [sorted(b) for b in der["brk"]], "ebrk": der["ebrk"]},
+        out.append({"inst": inst, "der": {"faces": der["faces"], "brk": [sorted(b) for b in der["brk"]], "ebrk": der["ebrk"],
+                                          "norm": der.get("norm") if isinstance(der.get("norm"), list) else [], "gross": der.get("gross", 0)},
                     "cls": der.get("cls", []), "hist": plain(s.get("hist", {}))})
     out.sort(key=lambda p: cjson(p["inst"]))
     return out
@@ -188,7 +189,10 @@ def graded(level):
 def circ_nodes(inst, der, n, sub):
     """-> (U (m,3), W (m,), D (m,3) = b - a of the edge in chart coordinates); sub = grading level of every piece"""
     t, w = gl(n)
-    g = np.array(graded(0 if sub <= 1 else sub))  # (k,2) panels of the unit interval
+    # sub = 100 * u + L: every piece is cut into u equal parts (default 1), each graded to level L
+    u, lev = max(1, sub // 100), (0 if sub % 100 <= 1 else sub % 100)
+    g0 = np.array(graded(lev))
+    g = np.concatenate([(g0 + k) / u for k in range(u)])  # (k,2) panels of the unit interval
     Us, Ws, Ds = [], [], []
     for (a, b), brk in zip(inst["edges"], der["ebrk"]):
         a, b = np.array(a, dtype=float), np.array(b, dtype=float)
@@ -224,7 +228,31 @@ def integrand(inst, der, n, sub):
 QCAP = 2_000_000_000
 
 
-SUBS = {"flux": (1, 3), "circ": (1, 7, 14)}   # flux: uniform k x k panels per piece; circ: grading level per piece
+def measure_points(magpy, obj, items, kap):
+    """point laws: the returned field at integer offsets, after the unit conversion supplied by the specification
+    (der.norm = [use rho^5, num, den, power of pi, power of lambda, power of mu0]), in units of 1e-8 of der.gross"""
+    mu0 = float(magpy.mu_0)
+    out = []
+    for field in ("B", "H"):
+        sel = [it for it in items if it[1]["pt"]["field"] == field]
+        if not sel:
+            continue
+        P = kap.pos(np.array([it[1]["pt"]["obs"] for it in sel], dtype=float))
+        F = np.asarray(obj.getB(P) if field == "B" else obj.getH(P), dtype=float).reshape(-1, 3)
+        F = kap.unvec(F)
+        for (tid, inst, der), f in zip(sel, F):
+            r5, num, den, pik, le, me = der["norm"]
+            fac = (float(inst["pt"]["rho"]) ** 5 if r5 else 1.0) * num / den * math.pi ** pik * kap.lam ** le * mu0 ** me
+            w = f * fac
+            g = float(der["gross"])
+            out.append({"tid": tid, "kappa": "id" if kap.identity else "rnd", "inst": inst, "der": der,
+                        "obs": {"q": [max(-QCAP, min(QCAP, int(v))) for v in q8(w, g)], "fin": [bool(math.isfinite(x)) for x in w]},  # 32-bit for TLC
+                        "meas": {"q": [0, 0], "fin": True}, "meas8": 0, "qerr": 0, "qerr1": 0, "qppm": [0, 0], "sub": 0, "nodes": 1,
+                        "amp": {"big": False, "q": [0, 0]}, "raw": {"field": [float(x) for x in f], "w_over_gross": [float(x) / g for x in w], "lam": kap.lam}})
+    return out
+
+
+SUBS = {"flux": (1, 3), "circ": (1, 7, 810)}   # flux: uniform k x k panels per piece; circ: grading level per piece
 
 
 def measure_group(magpy, scene, items, kap, orders=(16, 32), qerr_redo=1e-9):
@@ -232,9 +260,13 @@ def measure_group(magpy, scene, items, kap, orders=(16, 32), qerr_redo=1e-9):
     Pieces whose two orders disagree by more than qerr_redo of the gross scale are measured once more with every
     piece subdivided (composite rule); what remains above 1e-8 is reported as it is (the validator calls it unmeasurable)."""
     obj = build_scene(magpy, scene, kap)
-    todo = list(items)
+    points = [it for it in items if it[1]["law"] == "point"]
+    todo = [it for it in items if it[1]["law"] != "point"]
     done = {}
     first = {}
+    if points:
+        for ev in measure_points(magpy, obj, points, kap):
+            done[ev["tid"]] = ev
     for rnd in range(3):
         if not todo:
             break
@@ -261,11 +293,11 @@ def measure_group(magpy, scene, items, kap, orders=(16, 32), qerr_redo=1e-9):
                 m = len(X)
                 Ff = F[o:o + m] @ np.array(ch["R"], dtype=float)  # components in the chart frame: R^T F
                 o += m
-                d = Ff * G  # the summands F_c * G_c: the gross scale is the sum of their magnitudes
-                ok = np.isfinite(d).all(axis=1)
+                d = np.einsum("ij,ij->i", Ff, G)
+                mag = np.linalg.norm(Ff, axis=1) * np.linalg.norm(G, axis=1)  # |F| |dA| resp. |F| |dl|: the gross scale is its sum
+                ok = np.isfinite(d)
                 fin = bool(ok.all())
-                df = d[ok]
-                res[(tid, n)] = (float(df.sum()) * scale, float(np.abs(df).sum()) * scale, fin, m)
+                res[(tid, n)] = (float(d[ok].sum()) * scale, float(mag[ok].sum()) * scale, fin, m)
         nxt = []
         for tid, inst, der in todo:
             if (tid, orders[0]) not in res:
@@ -285,6 +317,7 @@ def measure_group(magpy, scene, items, kap, orders=(16, 32), qerr_redo=1e-9):
             else:
                 ev["amp"] = {"big": False, "q": [0, 0]}
             first.setdefault(tid, qerr)
+            ev["obs"] = {"q": [0, 0, 0], "fin": [True, True, True]}
             ev["qerr1"] = int(min(round(first[tid] * 1e12), QCAP))  # error estimate before any refinement
             ev["qppm"] = [int(round(first[tid] * 1e6)), int(round(qerr * 1e6))]
             done[tid] = ev
@@ -294,7 +327,7 @@ def measure_group(magpy, scene, items, kap, orders=(16, 32), qerr_redo=1e-9):
     return [done[t] for t, _, _ in items]
 
 
-TV_KEYS = ("tid", "prop", "kappa", "inst", "der", "meas", "meas8", "qerr", "qppm", "sub", "amp")
+TV_KEYS = ("tid", "prop", "kappa", "inst", "der", "meas", "meas8", "qerr", "qppm", "sub", "amp", "obs")
 
 
 def tv_event(e):
@@ -317,7 +350,7 @@ def run_job(job):
             evs = measure_group(magpy, scene, items, kap)
         except Exception as ex:  # an exception of the library on a well-posed instance is itself an observation
             evs = [{"tid": tid, "kappa": "id" if kap.identity else "rnd", "inst": inst, "der": der, "meas": {"q": [0, 0], "fin": False}, "meas8": 0,
-                    "qerr": 0, "qerr1": 0, "qppm": [0, 0], "sub": 0, "nodes": 0, "amp": {"big": False, "q": [0, 0]}, "raw": {"exception": repr(ex), "lam": kap.lam}} for tid, inst, der in items]
+                    "qerr": 0, "qerr1": 0, "qppm": [0, 0], "sub": 0, "nodes": 0, "obs": {"q": [0, 0, 0], "fin": [False, False, False]}, "amp": {"big": False, "q": [0, 0]}, "raw": {"exception": repr(ex), "lam": kap.lam}} for tid, inst, der in items]
         for e in evs:
             e["prop"] = prop
             e["kappa_desc"] = kap.describe()
@@ -363,6 +396,8 @@ def make_jobs(prop, plan, tier, nproc=16, rnd_every=3, max_group_nodes=400_000):
 
 
 def _est_nodes(inst, der):
+    if inst["law"] == "point":
+        return 1
     if inst["law"] == "flux":
         n = 0
         for ax, _, _ in der["faces"]:
